@@ -111,11 +111,15 @@ func (w *resumedWriter) Write(data []byte) (int, error) {
 }
 
 func (b *Buffer) Cancel() error {
+	// Like write, wait for a Commit that's between checking the content
+	// and storing it: if it succeeds there's nothing left to cancel, and
+	// by the time we say so the blob must be in place.
+	b.commitMu.Lock()
+	defer b.commitMu.Unlock()
 	b.mu.Lock()
 	defer b.mu.Unlock()
 	if b.committed && b.commitErr == nil {
-		// The upload has already been committed (or a concurrent
-		// Commit is about to store the data it has checked):
+		// The upload has already been committed:
 		// there's nothing left to cancel.
 		return nil
 	}
